@@ -25,6 +25,7 @@ func init() {
 			"7: the same for a transfer / transparent container through aper.UnmarshalWithParams; 8: every presence combination of the OPTIONAL components of one SEQUENCE type (all 2^k for k<=10); " +
 			"9: primitive sweep, decode of the reference encoding of each leaf shape at bit offsets 0..7. distinct = hash of the canonical encoding; non-trivial = longer than 4 octets",
 		Assumptions: []string{
+			"the reference encoder / decoder and the generator work from the schema snapshot harness/ref/per/ngap_schema_snapshot.json (see C03), the library from its live struct tags",
 			"canonical encodings come from ref/per (self-tested at start); equality is field by field, nil and empty slices are equal, BIT STRINGs compare by their significant bits",
 			"values stay inside the root of extensible constraints; non-canonical inputs are out of the claim",
 		},
@@ -149,13 +150,13 @@ func decLocalize(v reflect.Value, tag, path string, depth int) string {
 		if t.NumField() > 0 && t.Field(0).Name == "Present" {
 			present := int(v.Field(0).Int())
 			if present >= 1 && present < t.NumField() && !p.OpenType {
-				if s := decLocalize(v.Field(present), dropRef(t.Field(present).Tag.Get("aper")), path+"."+t.Field(present).Name, depth+1); s != "" {
+				if s := decLocalize(v.Field(present), dropRef(per.FieldTag(t, present)), path+"."+t.Field(present).Name, depth+1); s != "" {
 					return s
 				}
 			}
 		} else {
 			for i := 0; i < t.NumField(); i++ {
-				ftag := t.Field(i).Tag.Get("aper")
+				ftag := per.FieldTag(t, i)
 				fp, _ := per.ParseTag(ftag)
 				f := v.Field(i)
 				if fp.OpenType {
@@ -165,7 +166,7 @@ func decLocalize(v reflect.Value, tag, path string, depth int) string {
 					}
 					present := int(val.Field(0).Int())
 					if present >= 1 && present < val.NumField() {
-						if s := decLocalize(val.Field(present), dropRef(val.Type().Field(present).Tag.Get("aper")), path+"."+t.Field(i).Name+"."+val.Type().Field(present).Name, depth+1); s != "" {
+						if s := decLocalize(val.Field(present), dropRef(per.FieldTag(val.Type(), present)), path+"."+t.Field(i).Name+"."+val.Type().Field(present).Name, depth+1); s != "" {
 							return s
 						}
 					}
@@ -293,7 +294,7 @@ func c04Optionals(c *fw.Case) (o fw.Outcome) {
 	t := st.Typ
 	var opt []int
 	for i := 0; i < t.NumField(); i++ {
-		fp, _ := per.ParseTag(t.Field(i).Tag.Get("aper"))
+		fp, _ := per.ParseTag(per.FieldTag(t, i))
 		if fp.Optional && ngapgen.Can(t.Field(i).Type) {
 			opt = append(opt, i)
 		}
@@ -321,7 +322,7 @@ func c04Optionals(c *fw.Case) (o fw.Outcome) {
 			if mask&(1<<uint(bi)) == 0 {
 				f.Set(reflect.Zero(f.Type()))
 			} else if f.IsNil() {
-				fp, _ := per.ParseTag(t.Field(fi).Tag.Get("aper"))
+				fp, _ := per.ParseTag(per.FieldTag(t, fi))
 				f.Set(g.Value(f.Type(), fp))
 			}
 		}
@@ -370,7 +371,7 @@ func seqTypesWithOptionals() []seqType {
 				if isCh && i == 0 {
 					continue
 				}
-				ft := t.Field(i).Tag.Get("aper")
+				ft := per.FieldTag(t, i)
 				fp, _ := per.ParseTag(ft)
 				if fp.Optional && ngapgen.Can(t.Field(i).Type) {
 					nopt++
